@@ -23,8 +23,7 @@ targets:
 
 nodes:
   "%(t)s":%(tattr)s
-  "%(s)s":
-    is-directory-structure: true%(sattr)s
+  "%(s)s":%(sattr)s
 
 commands:
   C.all:
@@ -42,6 +41,10 @@ commands:
     outputs: ["<S>"]
     args: echo S >> count.S
 """
+
+# how the two nodes are declared: (node name suffix, attribute lines)
+T_SPELLINGS = {"slash": ("/", []), "type": ("", ["type: directory"]), "is-directory": ("", ["is-directory: true"])}
+S_SPELLINGS = {"is-directory-structure": ("/", ["is-directory-structure: true"]), "type": ("", ["type: directory-structure"])}
 
 def yq(s):
     return '"' + s.replace("\\", "\\\\").replace('"', '\\"') + '"'
@@ -339,6 +342,32 @@ def walk(sb, pats=None):
         rec(sb.root, 0)
     return out
 
+def cycle_links(sb):
+    """symbolic links beneath the root that lead back into a directory being walked (a loop for a walker that follows links)"""
+    bad = []
+    def rec(full, rel, stack, depth):
+        try:
+            names = sorted(os.listdir(full))
+        except OSError:
+            return
+        for n in names:
+            f = os.path.join(full, n)
+            if not os.path.isdir(f):
+                continue
+            try:
+                rp = os.path.realpath(f, strict=True)
+            except OSError:
+                continue
+            if rp in stack or depth > 12:
+                if os.path.islink(f):
+                    bad.append(os.path.join(rel, n))
+                continue
+            rec(f, os.path.join(rel, n), stack | {rp}, depth + 1)
+    root = sb.p(sb.root)
+    if os.path.isdir(root):
+        rec(root, sb.root, {os.path.realpath(root)}, 0)
+    return bad
+
 def pick(rng, items):
     """deep objects and last children are preferred"""
     if not items:
@@ -499,12 +528,15 @@ def counts(S):
             return 0
     return n("count.T"), n("count.S")
 
-def write_build(sb, pats, absolute):
+def write_build(sb, pats, absolute, tsp="slash", ssp="is-directory-structure"):
     pre = (sb.S + "/") if absolute else ""
-    tnode, snode = pre + sb.root + "/", pre + "./" + sb.root + "/"
-    attr = ("\n    content-exclusion-patterns: [%s]" % ", ".join(yq(p) for p in pats)) if pats else ""
-    open(os.path.join(sb.S, "build.llbuild"), "w").write(BUILD % dict(t=tnode, s=snode, tattr=attr if attr else " {}", sattr=attr))
-    return tnode[:-1], snode[:-1]
+    tsuf, tlines = T_SPELLINGS[tsp]
+    ssuf, slines = S_SPELLINGS[ssp]
+    tnode, snode = pre + sb.root + tsuf, pre + "./" + sb.root + ssuf
+    pl = ["content-exclusion-patterns: [%s]" % ", ".join(yq(p) for p in pats)] if pats else []
+    fmt = lambda lines: ("".join("\n    " + l for l in lines)) if lines else " {}"
+    open(os.path.join(sb.S, "build.llbuild"), "w").write(BUILD % dict(t=tnode, s=snode, tattr=fmt(tlines + pl), sattr=fmt(slines + pl)))
+    return tnode.rstrip("/"), snode.rstrip("/")
 
 def build(llb, sb):
     before = counts(sb.S)
@@ -527,7 +559,7 @@ def run_scenario(chk, llb, model, sc, idx, generate=None):
         sb.materialise(name, sc["siblings"][name])
     if sc["init"] is not None:
         sb.materialise(sb.root, sc["init"])
-    pT, pS = write_build(sb, pats, sc.get("absolute", False))
+    pT, pS = write_build(sb, pats, sc.get("absolute", False), sc.get("tspell", "slash"), sc.get("sspell", "is-directory-structure"))
     records = []
     encs = []
     nsteps = sc.get("nsteps", len(sc["steps"]))
@@ -645,6 +677,21 @@ def corpus():
         dict(labels=["mv"], ops=[dict(op="mv", path="tree/c d", dst="tree/a", dir_t=T0 + 911 * STEP_NS)]),
         dict(labels=["content beside a dangling link"], ops=[dict(op="write", path="tree/sub/k", data="changed", t=T0 + 912 * STEP_NS)]),
         dict(labels=["rm the dangling link"], ops=[dict(op="rm", path="tree/sub/l2", dir_t=T0 + 913 * STEP_NS)])]))
+    # D7 (fixed 66b6b5d): a filtered structure node on a regular file ran again on every content change of the file
+    out.append(dict(name="file-root-structure-filtered", family="root", pats=["*.tmp"], init=f("file root"), steps=[
+        dict(labels=["touch-root"], ops=[dict(op="touch", path="tree", t=T0 + 914 * STEP_NS)]),
+        dict(labels=["content of the file root"], ops=[dict(op="write", path="tree", data="file root, longer", t=T0 + 915 * STEP_NS)])]))
+    # (fixed, found by P4) node attribute `type: directory` was mapped to a plain file node: deep edits were missed
+    out.append(dict(name="type-directory-spelling", family="core", pats=[], tspell="type", sspell="type", init=d(("a", f()), ("sub", d(("deep", d(("b", f("1"))))))), steps=[
+        dict(labels=["content (deep)"], ops=[dict(op="write", path="tree/sub/deep/b", data="22", t=T0 + 916 * STEP_NS)]),
+        dict(labels=["add (deep)"], ops=[dict(op="add", path="tree/sub/deep/c", spec=f(), dir_t=T0 + 917 * STEP_NS)])]))
+    out.append(dict(name="is-directory-spelling", family="core", pats=["*.tmp"], tspell="is-directory", sspell="type", init=d(("a", f()), ("sub", d(("deep", d(("b", f("1"))))))), steps=[
+        dict(labels=["content (deep)"], ops=[dict(op="write", path="tree/sub/deep/b", data="22", t=T0 + 916 * STEP_NS)]),
+        dict(labels=["add (deep)"], ops=[dict(op="add", path="tree/sub/deep/c", spec=f(), dir_t=T0 + 917 * STEP_NS)])]))
+    # loop protection (absolute node path): a link to an ancestor is left out of the unfiltered listing, the build terminates
+    out.append(dict(name="ancestor-link-absolute", family="core", pats=[], absolute=True, init=d(("a", f()), ("sub", d(("up", dict(k="l", to="..")), ("b", f())))), steps=[
+        dict(labels=["content"], ops=[dict(op="write", path="tree/sub/b", data="changed", t=T0 + 918 * STEP_NS)]),
+        dict(labels=["nothing"], ops=[])]))
     # D1 (known): chmod only
     out.append(dict(name="chmod-only", family="mode", pats=[], init=d(("a.txt", f()), ("sub", d(("b", f())))), steps=[
         dict(labels=["chmod"], ops=[dict(op="chmod", path="tree/sub/b", mode=0o600)]),
@@ -710,6 +757,8 @@ def gen_scenario(rng, family, pats, idx):
     sc = dict(family=family, pats=pats, steps=[], nsteps=rng.randint(2, 4) + 1,
               siblings=dict(outside=dict(k="d", mode=0o755, c=[["of", dict(k="f", data="outside")], ["od", dict(k="d", mode=0o755, c=[["o2", dict(k="f", data="o")]])]])))
     sc["init"] = gen_spec(rng, 1, maxdepth, 3, ["../outside/of", "../../outside/od", "nowhere", "a", "b.txt"])
+    sc["tspell"] = rng.choice(["slash", "slash", "type", "is-directory"])
+    sc["sspell"] = rng.choice(["is-directory-structure", "type"])
     if family == "symlink":
         sc["init"]["c"] = [e for e in sc["init"]["c"] if e[0] not in ("k", "lk", "zz")] + [["k", dict(k="f", data="target")], ["lk", dict(k="l", to="k")]]
     return sc
@@ -731,8 +780,12 @@ def make_generator(rng, family, pats):
                 continue
             op, label = e
             sb.apply(op)            # applied immediately so that the next choice sees the new tree
-            op = dict(op)           # (recorded for the replay; run_scenario does not apply generated ops twice)
-            ops.append(op); labels.append(label)
+            ops.append(dict(op)); labels.append(label)
+            for bad in cycle_links(sb):      # loops are outside the generator's space (see the corpus for one)
+                if os.path.lexists(sb.p(bad)):
+                    fix = dict(op="rm", path=bad, dir_t=sb.tick())
+                    sb.apply(fix)
+                    ops.append(fix); labels.append("rm-loop-link")
         return dict(ops=ops, labels=labels if labels else ["nothing"])
     return generate
 
